@@ -18,20 +18,29 @@ Oracle on the real code, independent of the Lean model:
 T2: the driver computes, per front-end, (status, header list, body = format/restriction/gzip count, collected) for the same
 request; the body description is evaluated with the real encoders and compared with the real bytes.
 
+BYTES: header names/values and the query string of a case are byte strings, written in the case as their latin-1 text
+(every character <= U+00FF).  The SAME bytes go to the three front-ends: WSGI gets the latin-1 text (PEP 3333), ASGI the
+bytes, MetricsHandler the raw request bytes through rfile (or the latin-1 text when the request cannot be put on the wire).
+Values are generated as Unicode text over the grammar and put on the wire as UTF-8 or latin-1, so bytes >= 0x80 (a0, 85, c2 a0,
+ff, e2 80 83 ...) occur in and around tokens.
+
 Scope (see Props/C17.lean): at most one Accept and one Accept-Encoding field line is in scope of the agreement oracle;
 repeated field lines are exercised for the correspondence only (MetricsHandler reads the first line only).  Blank `name[]`
 values do not count as values (parse_qs drops them).  Media types are compared case-sensitively, codings case-insensitively.
-Query strings are ASCII (percent-escapes for everything else), handed to ASGI as latin-1 bytes.
+DOCUMENTED LIMIT: a request target with a raw '#' (not a valid RFC 3986 path/query character) — urlparse cuts it off for
+MetricsHandler, wsgiref/ASGI do not; such requests ARE generated, MetricsHandler is judged on urlparse's query string, left out
+of the agreement group, and the numbers are recorded in evidence `documented_limits` (no failure).
 
-Two failure classes have their own signatures because they were real defects of asgi.py (repaired in /repo, commit 14bb0ad):
-`C17:asgi-ignores-name-param` and `C17:asgi-raises-on-non-ascii-query`.  They are ordinary failures: a recurrence is a VIOLATION.
+Failure classes with their own signatures because they were real defects of asgi.py (repaired in /repo: 14bb0ad, 34b1cbd):
+`C17:asgi-ignores-name-param`, `C17:asgi-raises-on-non-ascii-query`, `C17:asgi-raises-on-header-bytes`.  They are ordinary
+failures: a recurrence is a VIOLATION.
 """
 import gzip
 import http.client
 import io
 import json
 import sys
-from urllib.parse import parse_qs, urlparse
+from urllib.parse import parse_qs, unquote, urlparse
 
 import lib
 
@@ -43,6 +52,7 @@ WS = ''.join(map(chr, [9, 10, 11, 12, 13, 28, 29, 30, 31, 32, 0x85, 0xa0, 0x1680
                   + [0x2028, 0x2029, 0x202f, 0x205f, 0x3000]))
 SIG_F12 = 'C17:asgi-ignores-name-param'
 SIG_F12B = 'C17:asgi-raises-on-non-ascii-query'
+SIG_HDRBYTES = 'C17:asgi-raises-on-header-bytes'
 METHODS = ['GET', 'HEAD', 'POST', 'PUT', 'DELETE', 'OPTIONS', 'PATCH', 'get', 'Options', 'TRACE', '']
 
 
@@ -195,7 +205,7 @@ class World:
         env = {'REQUEST_METHOD': case['method'], 'QUERY_STRING': case['q'], 'SERVER_NAME': 'x', 'SERVER_PORT': '80',
                'wsgi.url_scheme': 'http'}
         if case['path'] is not None:
-            env['PATH_INFO'] = case['path']
+            env['PATH_INFO'] = unquote(case['path'], 'iso-8859-1')     # as wsgiref does
         if case['acc'] is not None:
             env['HTTP_ACCEPT'] = ','.join(case['acc'])
         if case['ae'] is not None:
@@ -219,7 +229,7 @@ class World:
 
     def run_asgi(self, case, disable):
         scope = {'type': 'http', 'method': case['method'], 'path': case['path'] or '', 'query_string': case['q'].encode('latin-1'),
-                 'headers': [(n.encode('utf-8'), v.encode('utf-8')) for n, v in self.fields(case)]}
+                 'headers': [(n.encode('latin-1'), v.encode('latin-1')) for n, v in self.fields(case)]}
         sent = []
 
         async def receive():
@@ -347,10 +357,25 @@ TOKENS_ACCEPT = [OM, OM, OM, OM + '-foo', 'x' + OM, OM[:-1], OM.upper(), 'Applic
                  '\u212a' + OM, OM + '\u0130']
 TOKENS_CODING = ['gzip', 'gzip', 'GZip', 'GZIP', 'gZIP', 'x-gzip', 'gzipx', 'xgzip', 'gzi', 'g zip', 'deflate', 'br', 'identity',
                  '*', '', 'gz\u0130p', '\u212azip', 'gzip\u212a', 'gz\u0131p', 'G\u017dIP', 'gzip-x', 'GZ\u0130P']
-WS_POOL = ['', '', '', ' ', ' ', '\t', '  ', ' \t ', '\x0b', '\x0c', '\xa0', '\u2003', '\u3000', '\x1c', '\x85', '\u2009',
+WS_POOL = ['', '', '', ' ', ' ', '\t', '  ', ' \t ', '\x0b', '\x0c', '\xa0', '\xa0', '\x85', '\xc2\xa0', '\xff', '\u2003', '\u3000', '\x1c', '\x85', '\u2009',
            '\r\n ', '\n', '\u1680\u205f']
 PARAMS = ['q=0.5', ' q=0.8', 'q=0', 'q=1.0', 'version=1.0.0', ' version=1.0.0', 'charset=utf-8 ', ' version=0.0.4', '',
           ' ', 'escaping=allow-utf-8', 'x="a b"', OM, 'gzip']
+
+
+def to_wire(t, rng=None):
+    """Unicode text -> the bytes put on the wire (UTF-8, or latin-1 when possible and chosen), written as latin-1 text"""
+    if all(ord(c) < 256 for c in t) and (rng is None or rng.random() < 0.6):
+        return t
+    return t.encode('utf-8').decode('latin-1')
+
+
+def wire_case(c, rng=None):
+    for k in ('acc', 'ae'):
+        if c[k] is not None:
+            c[k] = [to_wire(v, rng) for v in c[k]]
+    c['others'] = [[to_wire(n, rng), to_wire(v, rng)] for n, v in c['others']]
+    return c
 
 
 def gen_header(rng, tokens, simple=False):
@@ -390,11 +415,19 @@ def gen_query(rng):
         elif r < 0.9:
             pieces.append(rng.choice(OTHER_KEYS) + '=' + rng.choice(['1', 'up', '', 'reqs', '1', 'up', '%C3%A9', '%ff', 'a%20b']))
         else:
-            pieces.append(rng.choice(['name[]', 'name%5B%5D', '=up', '&', 'name[]==', 'name[]=up=1']))
-    return '&'.join(pieces)
+            pieces.append(rng.choice(['name[]', 'name%5B%5D', '=up', '&', 'name[]==', 'name[]=up=1', '=', '==', 'name[]=up;name[]=reqs',
+                                      'name[]=up?x', '?name[]=up', 'a=?', ';', 'name[]=up%23x', '%23']))
+    q = '&'.join(pieces)
+    x = rng.random()
+    if x < 0.06:      # a raw '#': outside RFC 3986, the documented limit of the agreement theorem
+        i = rng.randrange(0, len(q) + 1)
+        q = q[:i] + '#' + q[i:]
+    elif x < 0.09:
+        q = q + rng.choice(['#', '#frag', '#name[]=up', '&name[]=up#x'])
+    return q
 
 
-OTHER_HEADERS = [('Host', 'localhost:8000'), ('User-Agent', 'pv/1'), ('X-Accept', OM), ('Accept-Language', 'gzip'),
+OTHER_HEADERS = [('X-Bytes', 'caf\xe9 \xff'), ('X-\xe9', 'v'), ('Host', 'localhost:8000'), ('User-Agent', 'pv/1'), ('X-Accept', OM), ('Accept-Language', 'gzip'),
                  ('Accept-Charset', OM), ('Accept-Encodings', 'gzip'), ('Acceptx', OM), ('X-Accept-Encoding', 'gzip'),
                  ('Content-Type', OM), ('Content-Encoding', 'gzip')]
 
@@ -414,7 +447,12 @@ def corpus():
            c(an='ACCEPT', aen='accept-ENCODING', acc=[OM], ae=['gzip']),
            c(others=[['X-Accept', OM], ['Accept-Encodings', 'gzip']]),
            c(acc=['text/plain', OM]), c(acc=[OM, 'text/plain']), c(ae=['br', 'gzip']),
-           c(path='/favicon.ico'), c(path='/'), c(path=''), c(path='/metrics/x')]
+           c(path='/favicon.ico'), c(path='/'), c(path=''), c(path='/metrics/x'), c(path='/favicon%2Eico'), c(path='/metrics#f'),
+           c(acc=[OM + '\xa0']), c(acc=['\xc2\xa0' + OM]), c(acc=[OM + '\xff']), c(acc=['\xff, ' + OM + '\x85;q=1']),
+           c(ae=['gzip\x85']), c(ae=['\xa0GZIP\xa0']), c(ae=['gzip\xff']), c(others=[['X-Bytes', '\xe9\xff'], ['X-\xe9', 'v']], acc=[OM]),
+           c(q='name[]=up#x'), c(q='name[]=up#'), c(q='#name[]=up'), c(q='name[]=up%23x'), c(q='name[]=up?x=1'), c(q='name[]=up;name[]=reqs'),
+           c(q='&&name[]=up&&'), c(q='=&==&name[]'), c(acc=[OM], q='a=1#name[]=up')]
+    out = [wire_case(x) for x in out]
     for m in METHODS:
         out.append(c(method=m, acc=[OM], ae=['gzip'], q='name[]=up'))
         out.append(c(method=m))
@@ -431,11 +469,12 @@ def gen_case(rng):
         if x < 0.28: return [gen_header(rng, tokens), gen_header(rng, tokens)]      # repeated field line
         return [gen_header(rng, tokens, simple=rng.random() < 0.5)]
     others = [list(h) for h in rng.sample(OTHER_HEADERS, rng.choice([0, 0, 1, 2, 3]))]
-    return dict(method=method, path=rng.choice(['/metrics', '/metrics', '/metrics', '/', '/x/y', '/favicon.ico', '/favicon.icon']),
+    return wire_case(dict(method=method, path=rng.choice(['/metrics', '/metrics', '/metrics', '/metrics', '/', '/x/y', '/favicon.ico', '/favicon.icon',
+                                                           '/favicon%2Eico', '/metrics;p=1', '/metrics#f']),
                 acc=hdr(TOKENS_ACCEPT, OM), ae=hdr(TOKENS_CODING, 'gzip'),
                 an=rng.choice(['Accept', 'Accept', 'accept', 'ACCEPT', 'aCCept']),
                 aen=rng.choice(['Accept-Encoding', 'accept-encoding', 'ACCEPT-ENCODING', 'Accept-encoding']),
-                others=others, q=gen_query(rng))
+                others=others, q=gen_query(rng)), rng)
 
 
 # ------------------------------------------------------------------------------------------------ evaluation
@@ -455,11 +494,13 @@ def decoded_body(r):
     return r['body'], None
 
 
-def oracle_get(world, fe, r, acc, ae, names, compression, q=''):
+def oracle_get(world, fe, r, acc, ae, names, compression, case):
     """property oracle for one front-end's answer to a GET; returns list of (sig, what)"""
     if 'error' in r:
-        if fe == 'asgi' and r['error'] == 'UnicodeError' and non_ascii_query(q):
+        if fe == 'asgi' and r['error'] == 'UnicodeError' and non_ascii_query(case['q']):
             return [(SIG_F12B, 'ASGI app raises on a non-ASCII query string')]
+        if fe == 'asgi' and r['error'] == 'UnicodeError' and has_high_bytes(case):
+            return [(SIG_HDRBYTES, 'ASGI app raises on header bytes >= 0x80')]
         return [('C17:raises', '%s raised %s' % (fe, r['error']))]
     fails = []
     fmt = want_format(acc)
@@ -516,22 +557,34 @@ def oracle_wsgi_other(r, method):
     return fails
 
 
+def xl(t):
+    """a byte string written as latin-1 text -> x:<hex>"""
+    return lib.xb(t.encode('latin-1'))
+
+
 def enc_acc(v):
-    return '-' if v is None else lib.enc_list([lib.hx(x) for x in v])
+    return '-' if v is None else lib.enc_list([xl(x) for x in v])
+
+
+def enc_dict(d):
+    return '&'.join('%s>%s' % (lib.hx(k), ','.join(lib.hx(v) for v in vs)) for k, vs in d.items()) or '.'
 
 
 def driver_line(case, disable):
-    pstr = parse_qs(case['q'])
-    ps = lib.enc_list(['%s>%s' % (lib.hx(k), ','.join(lib.hx(v) for v in vs)) for k, vs in pstr.items()])
+    target = (case['path'] or '') + '?' + case['q']
+    table = {case['q']: parse_qs(case['q'])}
+    hq = urlparse(target).query
+    table.setdefault(hq, parse_qs(hq))
+    pt = lib.enc_list(['%s=%s' % (lib.hx(q), enc_dict(d)) for q, d in table.items()])
     try:
         pbytes = parse_qs(case['q'].encode('latin-1'))
         pb = lib.enc_list(['%s>%s' % (lib.xb(k), ','.join(lib.xb(v) for v in vs)) for k, vs in pbytes.items()])
     except UnicodeError:
         pb = '!'        # parse_qs(<bytes>) raises on non-ASCII escapes / bytes (a fact about the standard library)
-    oth = lib.enc_list(['%s>%s' % (lib.hx(n), lib.hx(v)) for n, v in case['others']])
-    return 'c17 req %s %s %s %s %s %s %s %s %s %d' % (
-        lib.hx(case['method']), '-' if case['path'] is None else lib.hx(case['path']), enc_acc(case['acc']), enc_acc(case['ae']),
-        lib.hx(case['an']), lib.hx(case['aen']), oth, ps, pb, 1 if disable else 0)
+    oth = lib.enc_list(['%s>%s' % (xl(n), xl(v)) for n, v in case['others']])
+    return 'c17 req %s %s %s %s %s %s %s %s %s %s %s %d' % (
+        lib.hx(case['method']), '-' if case['path'] is None else lib.hx(unquote(case['path'], 'iso-8859-1')), lib.hx(target),
+        xl(case['q']), enc_acc(case['acc']), enc_acc(case['ae']), xl(case['an']), xl(case['aen']), oth, pt, pb, 1 if disable else 0)
 
 
 def parse_obs(txt):
@@ -586,6 +639,10 @@ def compare_model(world, fe, real, model):
     return None
 
 
+def has_high_bytes(case):
+    return any(ord(c) > 127 for n, v in World.fields(None, case) for c in n + v)
+
+
 def eval_case(world, case):
     """runs the real front-ends on one case; returns (results, failures, notes)"""
     res, fails, notes = {}, [], []
@@ -599,27 +656,31 @@ def eval_case(world, case):
         res['asgi', d] = world.run_asgi(case, d)
     res['handler', False] = world.run_handler(case)
     if is_get and case['path'] is not None:
-        favicon = case['path'] == '/favicon.ico'
+        target = case['path'] + '?' + case['q']
+        favicon = unquote(case['path'], 'iso-8859-1') == '/favicon.ico'
+        hquery = urlparse(target).query               # MetricsHandler's query string, by the standard library
+        law = hquery == case['q']
+        if not law:
+            if '#' not in target:
+                fails.append(('C17:urlparse-model', 'urlparse(%r).query is %r, not the text after the first ? — without a raw #'
+                              % (target, hquery)))
+            notes.append('raw-#-in-target')
         for d in (False, True):
             if not favicon:
                 fails += [(s, w + (' [disable_compression]' if d else '')) for s, w in
-                          oracle_get(world, 'wsgi', res['wsgi', d], acc_join, ae_join, names, not d, case['q'])]
+                          oracle_get(world, 'wsgi', res['wsgi', d], acc_join, ae_join, names, not d, case)]
             fails += [(s, w + (' [disable_compression]' if d else '')) for s, w in
-                      oracle_get(world, 'asgi', res['asgi', d], acc_join, ae_join, names, not d, case['q'])]
+                      oracle_get(world, 'asgi', res['asgi', d], acc_join, ae_join, names, not d, case)]
         if not dup:
-            fails += oracle_get(world, 'handler', res['handler', False], acc_join, ae_join, names, True, case['q'])
+            # MetricsHandler is judged on the query string urlparse gives it (the same one unless the target has a raw '#')
+            fails += oracle_get(world, 'handler', res['handler', False], acc_join, ae_join, want_names(hquery), True, case)
         # agreement on (status code, Content-Type, Content-Encoding, decoded body); ASGI is left out when it already failed
-        # with the name[] class, so that class is reported under its own signature only
+        # with one of its own classes, so that class is reported under its own signature only
         if not favicon:
-            f12 = any(s in (SIG_F12, SIG_F12B) for s, _ in fails)
+            f12 = any(s in (SIG_F12, SIG_F12B, SIG_HDRBYTES) for s, _ in fails)
             def view(r):
                 if 'error' in r: return ('error', r['error'])
                 return (str(r['status'])[:3], hval(r, 'Content-Type'), hval(r, 'Content-Encoding'), decoded_body(r)[0])
-            law = urlparse(case['path'] + '?' + case['q']).query == case['q']
-            if case['q'].encode('latin-1').decode('latin-1') != case['q']:      # library law `hdec` of frontends_agree
-                raise lib.Infra('latin-1 round trip failed for %r' % case['q'])
-            if not law:
-                notes.append('urlparse-law-excluded')
             group = [('wsgi', res['wsgi', False])]
             if not f12: group.append(('asgi', res['asgi', False]))
             if not dup and law: group.append(('handler', res['handler', False]))
@@ -629,6 +690,8 @@ def eval_case(world, case):
                         n1, n2, tuple(str(x)[:60] for x in view(r1)), tuple(str(x)[:60] for x in view(r2)))))
             if not f12 and view(res['wsgi', True]) != view(res['asgi', True]):
                 fails.append(('C17:frontends-disagree', 'wsgi and asgi disagree with compression disabled'))
+            if not law and not dup and view(res['handler', False]) != view(res['wsgi', False]):
+                notes.append('raw-#-in-target: MetricsHandler differs from WSGI/ASGI')
             if dup and law and view(res['handler', False]) != view(res['wsgi', False]):
                 notes.append('dup-headers-handler-differs')
     elif not is_get:
@@ -697,6 +760,10 @@ def run_cases(ctx, world, cases, verbose=False):
                 c = shrink(world, case, sig)
                 again = [w for s, w in eval_case(world, c)[1] if s == sig]
                 what = again[0] if again else what
+            if sig == SIG_HDRBYTES:
+                what = ('ASGI app raises UnicodeDecodeError on a GET whose header fields %r carry bytes >= 0x80 (it must decode header '
+                        'bytes as latin-1 like wsgiref and http.server, which answer 200)' % (
+                            [[n, v] for n, v in World.fields(None, c) if any(ord(x) > 127 for x in n + v)],))
             if sig == SIG_F12B:
                 what = ('ASGI app raises UnicodeEncodeError/UnicodeDecodeError on GET %s?%s (parse_qs on the bytes query string cannot '
                         'handle non-ASCII escapes); WSGI and MetricsHandler answer 200' % (c['path'], c['q']))
@@ -738,6 +805,16 @@ def run_functions(ctx, world, rng, n):
              + ['c17 strip ' + lib.hx(s) for s in prim]
              + ['c17 lower ' + lib.hx(s) for s in prim]
              + ['c17 split h:2c ' + lib.hx(s) for s in hs_a[1:]] + ['c17 split h:3b ' + lib.hx(s) for s in hs_a[1:]])
+    targets = []
+    for _ in range(n):
+        t = rng.choice(['/metrics', '/', '/a/b', '/metrics;p=1', '/m#f', '/m%23', '/a:b']) + rng.choice(['?', '?', '?', '', '??', '#?', ';?'])
+        t += gen_query(rng) + rng.choice(['', '', '', '#', '#a?b', '?x#y#z', ';q'])
+        targets.append(t)
+    blobs = [bytes(rng.choice([0x20, 0x41, 0x61, 0x2c, 0x3b, 0x80, 0x85, 0xa0, 0xc2, 0xc3, 0xe2, 0xa9, 0xff, 0xf0, 0x9f])
+                   for _ in range(rng.randrange(0, 7))) for _ in range(n // 2)]
+    first_extra = len(lines)
+    lines += ['c17 urlq ' + lib.hx(t) for t in targets]
+    lines += ['c17 decode %s %s' % (lib.hx(c), lib.xb(b)) for c in ('latin-1', 'utf-8') for b in blobs]
     replies = ctx.driver.run(lines)
     k = 0
     for h in hs_a:
@@ -787,13 +864,30 @@ def run_functions(ctx, world, rng, n):
                 if replies[k] != 'ok ' + lib.enc_list([lib.hx(x) for x in s.split(sep)]):
                     ctx.diverge('%r.split(%r): python %r, model %s' % (s, sep, s.split(sep), replies[k]), {'fn': 'split', 'h': s})
                 k += 1
+        assert k == first_extra
+        for t in targets:
+            ctx.count('fn urlparse(target).query' + (" (raw '#')" if '#' in t else ''))
+            if replies[k] != 'ok ' + lib.hx(urlparse(t).query):
+                ctx.diverge('urlparse(%r).query: python %r, model %s' % (t, urlparse(t).query, replies[k]), {'fn': 'urlq', 'h': t})
+            k += 1
+        for c in ('latin-1', 'utf-8'):
+            for b in blobs:
+                ctx.count('fn bytes.decode')
+                try:
+                    exp = 'ok ' + lib.hx(b.decode(c))
+                except UnicodeError:
+                    exp = 'err UnicodeError'
+                if replies[k] != exp:
+                    ctx.diverge('%r.decode(%r): python %s, model %s' % (b, c, exp, replies[k]), {'fn': 'decode', 'h': b.hex()})
+                k += 1
 
 
 def run(ctx):
     ctx.rule = ('requests = method × path × Accept (grammar items: exact/near-miss/case-variant tokens, 19 whitespace strings, '
                 'parameters and q-values; malformed token soup; absent; repeated field lines) × Accept-Encoding (same) × field-name '
-                'spellings × unrelated/near-miss header fields × query strings (0..5 pieces: name[] literal or percent-encoded, blank '
-                'values, unrelated and near-miss keys, malformed pieces) × disable_compression; each request drives WSGI, ASGI and '
+                'spellings × unrelated/near-miss header fields (all header bytes put on the wire as UTF-8 or latin-1, so bytes >= 0x80 occur) × '
+                'query strings (0..5 pieces: name[] literal or percent-encoded, blank values, unrelated and near-miss keys, malformed '
+                "pieces, raw '#', '?', ';', '&&', '=' oddities) × disable_compression; each request drives WSGI, ASGI and "
                 'MetricsHandler; non-trivial = has an Accept, an Accept-Encoding or a query string; distinct by request content')
     check_interpreter_facts()
     world = World()
@@ -805,6 +899,15 @@ def run(ctx):
     run_functions(ctx, world, ctx.rng, 300 if ctx.tier == 'quick' else 4000)
     if ctx.tier == 'thorough':
         loopback_handler_check(ctx, world, cases, 600)
+    ctx.extra['documented_limits'] = {
+        "raw '#' in the request target (not a valid RFC 3986 path/query character; urlparse cuts the target there for MetricsHandler, "
+        "wsgiref and ASGI servers split at the first '?' only) - generated, excluded from the three-way agreement, no failure": {
+            'requests generated': ctx.dist.get('raw-#-in-target', 0),
+            'of which MetricsHandler answered differently from WSGI/ASGI': ctx.dist.get(
+                'raw-#-in-target: MetricsHandler differs from WSGI/ASGI', 0)},
+        'repeated Accept / Accept-Encoding field lines (MetricsHandler reads the first line only) - correspondence only': {
+            'requests generated': ctx.dist.get('repeated-field-lines (correspondence only)', 0),
+            'of which MetricsHandler answered differently from WSGI': ctx.dist.get('dup-headers-handler-differs', 0)}}
     ctx.extra['scope_notes'] = [
         'repeated Accept / Accept-Encoding field lines are out of scope of the agreement oracle (MetricsHandler reads the first line only)',
         'GET /favicon.ico on WSGI (200, empty body) is compared with the model only',
